@@ -279,6 +279,7 @@ struct World {
                 else observe_next(o, false);
             }
         } catch (const cocls::no_more_values_exception &) { o.r = "nomore"; }
+        catch (...) { o.r = "other_exception"; }
     }
 
     // explicit iterator: it = gen.begin(); ++it; it++; it != gen.end(); *it
@@ -298,6 +299,7 @@ struct World {
                     catch (const cocls::value_not_ready_exception &) { o.r = "notready"; }
                 } else observe_next(o, false);
             } catch (const cocls::no_more_values_exception &) { o.r = "nomore"; }
+            catch (...) { o.r = "other_exception"; }
         }
     }
 
@@ -308,6 +310,7 @@ struct World {
             futs[i].reset(new cocls::future<int>(call_(i)));
             fut_addr[i] = futs[i].get();
         } catch (const cocls::no_more_values_exception &) { o.r = "nomore"; futs.erase(i); }
+        catch (...) { o.r = "other_exception"; futs.erase(i); }
     }
 
     void poll_futures() {
